@@ -5,6 +5,8 @@ package main
 import (
 	"bufio"
 	"fmt"
+	"os"
+	"runtime/debug"
 	"strings"
 
 	quic "github.com/refraction-networking/uquic"
@@ -53,7 +55,7 @@ func runAmplification(w *bufio.Writer, seed uint64, n int, _ []string) {
 		ampCase(w, r.Fork(), i, dist)
 	}
 	ampClientCases(w, r.Fork(), dist)
-	for _, k := range []string{"cases", "nontrivial", "ops", "send-permitted", "send-blocked", "send-blocked-unvalidated", "boundary-hit", "close", "close-sent", "close-suppressed", "closed-recv", "closed-retransmit", "timeout-fired", "timeout-not-due", "ack", "validated-by-handshake", "validated-at-start", "never-validated", "pto-mode", "coalesced", "datagram>3x-first", "tiny-recv", "client-perspective"} {
+	for _, k := range []string{"cases", "nontrivial", "ops", "send-permitted", "send-blocked", "send-blocked-unvalidated", "boundary-hit", "recv-coalesced", "close", "close-sent", "close-suppressed", "closed-recv", "closed-retransmit", "timeout-fired", "timeout-not-due", "ack", "validated-by-handshake", "validated-at-start", "never-validated", "pto-mode", "coalesced", "datagram>3x-first", "tiny-recv", "client-perspective"} {
 		fmt.Fprintf(w, "DIST\t%s\t%d\n", k, dist[k])
 	}
 }
@@ -70,6 +72,9 @@ func ampCase(w *bufio.Writer, r *u.Rng, idx int, dist map[string]int) {
 	}
 	defer func() {
 		if e := recover(); e != nil {
+			if os.Getenv("VERIF_DEBUG") != "" {
+				fmt.Fprintf(os.Stderr, "%s\n", debug.Stack())
+			}
 			fmt.Fprintf(w, "MONFAIL\tamplification/panic\tpanic: %v\t%s\n", e, strings.Join(human, " "))
 		}
 	}()
@@ -150,10 +155,36 @@ func ampCase(w *bufio.Writer, r *u.Rng, idx int, dist map[string]int) {
 				sz = int64(r.Range(20, 1452))
 			}
 			wasLimited := !mValidated && mSent >= 3*mRcvd
-			h.ReceivedBytes(protocol.ByteCount(sz), monotime.Time(t))
+			// The datagram goes through the real Conn.handleOnePacket: however many (undecryptable) packets are
+			// coalesced in it, its size must be credited exactly once.
+			parts := ampDatagramParts(r, int(sz))
+			dg := quic.VerifC14CoalescedDatagram(cn.DCID(), parts, r.Bytes)
+			var stats uint64
+			var herr error
+			if sz < 25 {
+				// too short to carry a connection ID the transport could route by: credit it directly
+				// (and handleShortHeaderPacket's header-parse-error branch dereferences a nil qlogger)
+				h.ReceivedBytes(protocol.ByteCount(sz), monotime.Time(t))
+				stats = cn.StatsBytesReceived()
+			} else {
+				stats, herr = cn.HandleDatagram(dg, t)
+			}
 			mRcvd += sz
 			opsS = append(opsS, u.App("Recv", u.Z(sz), u.Z(t)))
-			human = append(human, fmt.Sprintf("Recv(%d)", sz))
+			human = append(human, fmt.Sprintf("Recv(%d=%s)", sz, ampPartsString(parts)))
+			if len(parts) > 1 {
+				dist["recv-coalesced"]++
+			}
+			if int64(len(dg)) != sz {
+				monfail("amplification/harness-datagram", fmt.Sprintf("crafted datagram has %d bytes instead of %d", len(dg), sz))
+			}
+			if herr != nil {
+				fmt.Fprintf(w, "INFO\tamplification: handleOnePacket returned %v for %s\n", herr, ampPartsString(parts))
+			}
+			// M7: ConnectionStats.BytesReceived and the handler's bytesReceived count every datagram once
+			if int64(stats) != mRcvd {
+				monfail("amplification/datagram-credited-once", fmt.Sprintf("after a %d-byte datagram %s ConnectionStats.BytesReceived=%d, datagrams delivered so far total %d bytes", sz, ampPartsString(parts), stats, mRcvd))
+			}
 			record(-1, false)
 			nowLimited := !mValidated && mSent >= 3*mRcvd
 			// M4a: when new bytes lift the limit and crypto packets are outstanding, the PTO must be re-armed
@@ -382,6 +413,53 @@ func ampCase(w *bufio.Writer, r *u.Rng, idx int, dist map[string]int) {
 	if idx < 2 {
 		fmt.Fprintf(w, "SAMPLE\t%s\n", strings.Join(human, " "))
 	}
+}
+
+// ampDatagramParts splits an n-byte client datagram into coalesced parts.
+func ampDatagramParts(r *u.Rng, n int) []quic.VerifC14Part {
+	if n < 90 {
+		return []quic.VerifC14Part{{Type: int(r.Pick(-1, 0, 0)), Size: n}}
+	}
+	var k int
+	switch r.Intn(6) {
+	case 0:
+		k = 1
+	case 1:
+		k = 2
+	case 2:
+		k = 8
+	case 3:
+		k = 16
+	default:
+		k = r.Range(2, 5)
+	}
+	if n/k < 45 {
+		k = n / 45
+	}
+	parts := make([]quic.VerifC14Part, 0, k)
+	rest := n
+	for i := 0; i < k; i++ {
+		sz := n / k
+		if i == k-1 {
+			sz = rest
+		}
+		rest -= sz
+		typ := 0 // Initial
+		if i > 0 {
+			typ = int(r.Pick(0, 0, 0, 1, 2, -1)) // Initial, 0-RTT-looking, Handshake-looking, garbage tail
+		}
+		parts = append(parts, quic.VerifC14Part{Type: typ, Size: sz})
+	}
+	return parts
+}
+
+func ampPartsString(parts []quic.VerifC14Part) string {
+	names := map[int]string{0: "Initial", 1: "0-RTT", 2: "Handshake", -1: "garbage"}
+	var s []string
+	for _, p := range parts {
+		s = append(s, fmt.Sprintf("%s:%d", names[p.Type], p.Size))
+	}
+	return "[" + strings.Join(s, "|") + "]"
 }
 
 func ampRecvPkt(a *ackhandler.VerifAmp, lvl, t int64, opsS, human *[]string, mValidated *bool, dist map[string]int) {
